@@ -192,6 +192,18 @@ CLAIMED: dict[str, tuple[str, str, str, str]] = {
             "items and #[tokio::test] are not generated; quick tier samples 2 400 sites and a quarter of the "
             "clone/blocking option settings per file.",
             TECH),
+    "C18": ("DESIGN.md §5 C18",
+            "spec/FilePlacement.tla enumerates rule sets (nested directory rules with absent / empty / non-empty "
+            "allow and deny lists, global_deny, global_patterns) over a 15-path tree with abstract patterns, "
+            "defines the required verdict (layer A) and the coded matching (layer B with flags for the pinned "
+            "commit's prefix matching and global-on-covered behaviour; non-vacuity run) and checks B = A, "
+            "DenyBeatsAllow and NoRulesNoReports on every rule set (4 608 quick / 73 728 thorough); every rule "
+            "set is written as a real configuration (string and dict pattern forms, both section spellings), "
+            "the tree linted, and FilePlacementTrace.tla loads the rule set into the spec's variables and "
+            "judges the reported paths; invalid regexes in five positions must yield exit 2.",
+            "Patterns are abstract predicates with one regex each (table cross-checked against re at start-up); "
+            "a file is reported if any file-placement finding names it.",
+            TECH),
 }
 
 REASON_NOT_YET = ("no check registered yet in this build; the TLA+ technique applies (see DESIGN.md §5) "
